@@ -23,6 +23,11 @@ out += ["", "Checks strengthened because a seed was first missed (all on the unc
         "* C17 block part was vacuous (histories never flushed): profile `times` now appends `write_block`; driver has a vacuity guard (`blocks_validated > 0`).",
         "* C14-a (stack buffer with a wrong fallback test): chunking sweep (600 KiB in chunks of one size, 10-24 sizes).",
         "* C18-a (blocks without block-parameters-index at 10^9 ticks): pool file J.",
-        "* C19-a (index rebuild wrong when a table holds duplicates): block content 4 (duplicate entries followed by further values) and follow-up op `add_existing_last_entries`."]
+        "* C19-a (index rebuild wrong when a table holds duplicates): block content 4 (duplicate entries followed by further values) and follow-up op `add_existing_last_entries`.",
+        "* C08-b (map key truncated to 8 bits): unknown keys congruent to known keys modulo 2^8 / 2^16 / 2^32 / 2^64 in every map (also exposed genuine defect D15).",
+        "* C16-b (staged bytes dropped on a failed flush): the C16 driver retries a rotation that threw; key class accepted-data-lost vs. accepted-data-intact.",
+        "* C20-a / C20-b: scheduling point after calls that fill a caller-owned buffer; environment deviation 'close() reports EINTR'.",
+        "* C09-c (scratch object reused across parameter sets): preambles whose sets differ in which optional members they carry.",
+        "* C15-c (new .part opened before the old stream is closed): scenario rotating onto the name currently being written."]
 open(os.path.join(VERIF, "seeded", "INDEX.md"), "w").write("\n".join(out) + "\n")
 print("\n".join(rows))
